@@ -26,7 +26,7 @@ package shard
 
 //@ func (*Shard).SearchPoints
 //@   property C06 C18
-//@   requires searchRequest.Offset >= 0 && searchRequest.Limit >= 0
+//@   requires searchRequest.Offset >= 0 && searchRequest.Limit >= 0 && s.cacheManager != nil
 //@   ensures err == nil && old(searchRequest.Limit) > 0 ==> len(result0) <= old(searchRequest.Limit)
 //@   loop 1 invariant rangeindex >= -1 && rangeindex < len(finalResults)
 //@   loop 2 invariant rangeindex >= -1 && rangeindex < len(searchRequest.Select) && i >= 0 && i < len(finalResults)
@@ -107,6 +107,7 @@ package shard
 //@   property C01
 //@   pure
 //@   safety -overflow
+//@   after Get assume result == nil || len(result) >= 8
 //@   ensures result == nil ==> ncalls(Put) == 1 && len(callarg(Put, 1, 2)) == 8 && int(le64at(callarg(Put, 1, 2), 0)) == ite(callres(Get, 1, 0) == nil, 0, int(le64at(callres(Get, 1, 0), 0))) + change
 //@   ensures ite(callres(Get, 1, 0) == nil, 0, int(le64at(callres(Get, 1, 0), 0))) + change < 0 ==> result != nil && ncalls(Put) == 0
 
